@@ -10,7 +10,7 @@ export CARGO_TARGET_DIR=$WT/target CARGO_NET_OFFLINE=true RUST_BACKTRACE=0
 LOG=$OUT/confirm.log; : > $LOG
 cd $WT || exit 2
 git checkout -q -- . ; rm -f $TDIR/seed_demo.rs
-run_demo() { cp $OUT/demo.rs $TDIR/seed_demo.rs; cargo test -p $CRATE --test seed_demo --offline >>$LOG 2>&1; rc=$?; rm -f $TDIR/seed_demo.rs; return $rc; }
+run_demo() { mkdir -p $TDIR; cp $OUT/demo.rs $TDIR/seed_demo.rs; if [ "$CRATE" = WORKSPACE ]; then cargo test --workspace --test seed_demo --offline >>$LOG 2>&1; else cargo test -p $CRATE --test seed_demo --offline >>$LOG 2>&1; fi; rc=$?; rm -f $TDIR/seed_demo.rs; return $rc; }
 echo "== demo on pristine" >>$LOG
 run_demo; PRISTINE=$?
 git apply $OUT/patch.diff || { echo "patch does not apply" | tee -a $LOG; exit 2; }
